@@ -35,7 +35,7 @@ Section C06.
   Context (H : list (N * N * bool)).
   Context (Hvalid : forall k t d, (k, t, d) ∈ H -> valid_ts t = true /\ 1 <= ts_tick t).
   Context (Hwithin : forall k t d k' t' d', (k, t, d) ∈ H -> (k', t', d') ∈ H -> ts_tick t' < ts_tick t + W).
-  Context (Hdistinct : forall k t d k' d', (k, t, d) ∈ H -> (k', t, d') ∈ H -> k = k' /\ d = d').
+  Context (Hdistinct : forall k t d d', (k, t, d) ∈ H -> (k, t, d') ∈ H -> d = d').
 
   (** Whatever the call returns, the mutation (or a newer one for the same id) is in the
       STORE of the issuing node and of every replica that acknowledged. *)
